@@ -171,9 +171,9 @@ BASE_NS = {
     "real": smt.real, "toint": smt.floor_int, "floor": lambda x: z3.ToReal(smt.floor_int(x)),
     "is_int": lambda x: z3.IsInt(smt.real(x)),
     "rne": lambda x: smt.rne_u(smt.real(x)), "rne_exact": smt.rne_exact,
-    "sqrt": lambda x: smt.sqrt_f(smt.real(x)), "sin": lambda x: smt.sin_f(smt.real(x)),
-    "cos": lambda x: smt.cos_f(smt.real(x)),
-    "atan2": lambda a, b: smt.atan2_f(smt.real(a), smt.real(b)),
+    "sqrt": lambda x: smt.sqrt_f(smt.real(x)), "sin": lambda x: smt.sin_f(z3.simplify(smt.real(x))),
+    "cos": lambda x: smt.cos_f(z3.simplify(smt.real(x))),
+    "atan2": lambda a, b: smt.atan2_f(z3.simplify(smt.real(a)), z3.simplify(smt.real(b))),
     "fabs": lambda x: z3.If(smt.real(x) >= 0, smt.real(x), -smt.real(x)),
     "abs_": lambda x: z3.If(x >= 0, x, -x),
     "min_": lambda a, b: z3.If(a <= b, a, b), "max_": lambda a, b: z3.If(a >= b, a, b),
